@@ -61,6 +61,20 @@ Section Vec.
   (* `for P in (P1, P2)`: the k-th element of the tuple *)
   Definition vsel (k : Z) (l : list (vec T)) : vec T :=
     nth (Z.to_nat k) l (oofZ O 0, oofZ O 0, oofZ O 0).
+  (* min / max / |x| < e  through the comparison *)
+  Definition omin (a b : T) : T := if oltb O a b then a else b.
+  Definition omax (a b : T) : T := if oltb O a b then b else a.
+  Definition oabs_lt (x e : T) : bool := oltb O x e && oltb O (oopp O e) x.
+  (* geometry/rotations.py rotate_2d, followed in flat_ring by Vec(dir.x, dir.y, 0.) *)
+  Definition rotate_2d (v : vec T) (angle : T) : vec T :=
+    let ca := ocos O angle in let sa := osin O angle in
+    (osub O (omul O (vx v) ca) (omul O (vy v) sa), oadd O (omul O (vx v) sa) (omul O (vy v) ca), oofZ O 0).
+  (* a loop with one carried vector: the successive states *)
+  Fixpoint vscan (f : vec T -> Z -> vec T) (s : vec T) (l : list Z) : list (vec T) :=
+    match l with
+    | [] => []
+    | i :: t => let s' := f s i in s' :: vscan f s' t
+    end.
   (* `M.vertices[k] = p` after the loops *)
   Fixpoint vset_nat (k : nat) (p : vec T) (l : list (vec T)) : list (vec T) :=
     match l with
